@@ -34,12 +34,20 @@ def _replay_cm(b):
     E = np.array([[float(x), float((5 * i + 1) % 3)] for i, x in enumerate(b["ex"])])
     t = b["tnum"] / b["tden"]
     exp = [list(r) for r in b["cm"]]
-    try:
-        got = np.asarray(ev.cm(P, K, E, t))
-        got = [[int(v) for v in row] for row in got.tolist()]
-    except Exception as ex:
-        got = None
-        bad.append(("returns", {"fn": "cm", "raised": repr(ex)[:200]}))
+    # the confusion matrix depends on x only: the same case with heights far outside the x range must give the same matrix
+    P2 = P.copy(); P2[:, 1] = P2[:, 1] * 250.0 + 1000.0
+    E2 = E.copy(); E2[:, 1] = E2[:, 1] * 250.0 + 1000.0
+    gots = []
+    for Pv, Ev in ((P, E), (P2, E2)):
+        try:
+            g = np.asarray(ev.cm(Pv, K, Ev, t))
+            gots.append([[int(v) for v in row] for row in g.tolist()])
+        except Exception as ex:
+            gots.append(None)
+            bad.append(("returns", {"fn": "cm", "raised": repr(ex)[:200]}))
+    got = gots[0]
+    if got is not None and gots[1] is not None and gots[1] != exp:
+        got = gots[1]
     if got is not None:
         (tp, fp), (fn, tn) = got
         ident = tp + fn == len(E) and tp + fp == len(K) and tp + fp + fn + tn == n and min(tp, fp, fn, tn) >= 0
